@@ -85,11 +85,27 @@ pub enum Op {
     AddDataset { sfx: u8, data: Vec<DSpec> },
     InsertData { set: u16, d: DSpec },
     Annotate { with_id: bool, sfx: u8, by_handle: bool, target: SelSpec, data: Vec<ADSpec> },
-    RemoveAnnotation { pick: u16, by_id: bool },
+    RemoveAnnotation {
+        pick: u16,
+        by_id: bool,
+        /// address the item by its temporary id ("!A<handle>") instead
+        #[serde(default)]
+        by_temp: bool,
+    },
     RemoveData { set: u16, pick: u16, strict: bool },
     RemoveKey { set: u16, pick: u16, strict: bool },
-    RemoveResource { pick: u16, by_id: bool },
-    RemoveDataset { pick: u16, by_id: bool },
+    RemoveResource {
+        pick: u16,
+        by_id: bool,
+        #[serde(default)]
+        by_temp: bool,
+    },
+    RemoveDataset {
+        pick: u16,
+        by_id: bool,
+        #[serde(default)]
+        by_temp: bool,
+    },
     ProtectText { mode: u8 },
 }
 
@@ -321,11 +337,11 @@ pub fn op_strategy(cfg: &HistCfg) -> BoxedStrategy<Op> {
         2 => (0u8..6, proptest::collection::vec(dspec(h), 0..=4)).prop_map(|(sfx, data)| Op::AddDataset { sfx, data }),
         2 => (idx(), dspec(h)).prop_map(|(set, d)| Op::InsertData { set, d }),
         16 => annotate,
-        rw => (idx(), any::<bool>()).prop_map(|(pick, by_id)| Op::RemoveAnnotation { pick, by_id }),
+        rw => (idx(), any::<bool>(), proptest::bool::weighted(0.15)).prop_map(|(pick, by_id, by_temp)| Op::RemoveAnnotation { pick, by_id, by_temp }),
         rw => (idx(), idx(), any::<bool>()).prop_map(|(set, pick, strict)| Op::RemoveData { set, pick, strict }),
         rw / 2 + 1 => (idx(), idx(), any::<bool>()).prop_map(|(set, pick, strict)| Op::RemoveKey { set, pick, strict }),
-        rw / 4 + 1 => (idx(), any::<bool>()).prop_map(|(pick, by_id)| Op::RemoveResource { pick, by_id }),
-        rw / 4 + 1 => (idx(), any::<bool>()).prop_map(|(pick, by_id)| Op::RemoveDataset { pick, by_id }),
+        rw / 4 + 1 => (idx(), any::<bool>(), proptest::bool::weighted(0.15)).prop_map(|(pick, by_id, by_temp)| Op::RemoveResource { pick, by_id, by_temp }),
+        rw / 4 + 1 => (idx(), any::<bool>(), proptest::bool::weighted(0.15)).prop_map(|(pick, by_id, by_temp)| Op::RemoveDataset { pick, by_id, by_temp }),
         cfg.protect_weight => (0u8..4).prop_map(|mode| Op::ProtectText { mode }),
     ]
     .boxed()
@@ -811,14 +827,19 @@ impl Machine {
                 self.finish_add(&mut step, res.map(|r| r.map(|h| h.as_usize())), h);
                 step
             }
-            Op::RemoveAnnotation { pick: p, by_id } => {
+            Op::RemoveAnnotation { pick: p, by_id, by_temp } => {
                 let live = self.model.live_anns();
                 if live.is_empty() {
                     return Step::skip("remove_annotation", "no annotation");
                 }
                 let a = live[pick(*p, live.len())];
                 let mut step = Step::new("remove_annotation");
-                let item = bi_ann(&self.model, a, !*by_id);
+                let item = if *by_temp {
+                    step.labels.push("removal_by_temp_id");
+                    BuildItem::Id(format!("!A{}", a))
+                } else {
+                    bi_ann(&self.model, a, !*by_id)
+                };
                 let res = catch(|| match item {
                     BuildItem::Id(id) => self.store.remove_annotation(id.as_str()),
                     _ => self.store.remove_annotation(AnnotationHandle::new(a)),
@@ -828,16 +849,21 @@ impl Machine {
                 self.finish_removal(&mut step, res, doomed, BTreeSet::new(), had);
                 step
             }
-            Op::RemoveResource { pick: p, by_id } => {
+            Op::RemoveResource { pick: p, by_id, by_temp } => {
                 let live = self.model.live_resources();
                 if live.is_empty() {
                     return Step::skip("remove_resource", "no resource");
                 }
                 let r = live[pick(*p, live.len())];
                 let mut step = Step::new("remove_resource");
-                let id = self.model.res(r).id.clone();
+                let id = if *by_temp {
+                    step.labels.push("removal_by_temp_id");
+                    format!("!R{}", r)
+                } else {
+                    self.model.res(r).id.clone()
+                };
                 let res = catch(|| {
-                    if *by_id {
+                    if *by_id || *by_temp {
                         self.store.remove_resource(id.as_str())
                     } else {
                         self.store.remove_resource(TextResourceHandle::new(r))
@@ -848,16 +874,21 @@ impl Machine {
                 self.finish_removal(&mut step, res, doomed, BTreeSet::new(), had);
                 step
             }
-            Op::RemoveDataset { pick: p, by_id } => {
+            Op::RemoveDataset { pick: p, by_id, by_temp } => {
                 let live = self.model.live_sets();
                 if live.is_empty() {
                     return Step::skip("remove_dataset", "no dataset");
                 }
                 let s = live[pick(*p, live.len())];
                 let mut step = Step::new("remove_dataset");
-                let id = self.model.set(s).id.clone();
+                let id = if *by_temp {
+                    step.labels.push("removal_by_temp_id");
+                    format!("!S{}", s)
+                } else {
+                    self.model.set(s).id.clone()
+                };
                 let res = catch(|| {
-                    if *by_id {
+                    if *by_id || *by_temp {
                         self.store.remove_dataset(id.as_str())
                     } else {
                         self.store.remove_dataset(AnnotationDataSetHandle::new(s))
